@@ -379,7 +379,7 @@ fn c11_strategy(_tier: Tier) -> BoxedStrategy<Case> {
     gen::search_case(SearchOpts {
         prop: "C11",
         cfg: CfgOpts { casei: 2, anchored: 1, ..CfgOpts::default() },
-        pats: PatOpts { w_empty: 4, max_class: 1, long: true, w_shapes: 8, w_adversarial: 0, w_fanout: 0 },
+        pats: PatOpts { w_empty: 4, max_class: 1, long: true, w_shapes: 8, w_adversarial: 0, w_fanout: 1 },
         hay: HayOpts { size_class: 1 },
         full_span_only: false,
         alphabets: vec![(40, gen::ALPHA_CASE), (20, gen::ALPHA_LETTERMIX), (18, gen::ALPHA_HIGHCASE), (10, gen::ALPHA_TEXT), (7, gen::ALPHA_FULL), (5, gen::ALPHA_NYBBLE)],
